@@ -1,0 +1,39 @@
+// Verification hooks.  Everything in this file and every use of its macros
+// compiles to nothing unless YGM_VERIF is defined.
+#pragma once
+
+#ifdef YGM_VERIF
+#include <cstddef>
+#include <cstdint>
+namespace ygm::verif {
+struct hooks_t {
+  // around the execution of a received message's lambda
+  void (*exec_begin)(void *comm, uint16_t lid, void *iarchive) = nullptr;
+  void (*exec_end)(void *comm, uint16_t lid, void *iarchive)   = nullptr;
+  // a message was appended to a send buffer: dest is the final destination
+  // (-1 for a broadcast leg), next_hop the buffer it went into
+  void (*originate)(void *comm, int dest, int next_hop, size_t header_bytes,
+                    size_t body_bytes) = nullptr;
+};
+inline hooks_t hooks;
+}  // namespace ygm::verif
+#define YGM_VERIF_EXEC_BEGIN(lid, ar)                     \
+  do {                                                    \
+    if (ygm::verif::hooks.exec_begin)                     \
+      ygm::verif::hooks.exec_begin(this, lid, (void *)ar); \
+  } while (0)
+#define YGM_VERIF_EXEC_END(lid, ar)                     \
+  do {                                                  \
+    if (ygm::verif::hooks.exec_end)                     \
+      ygm::verif::hooks.exec_end(this, lid, (void *)ar); \
+  } while (0)
+#define YGM_VERIF_ORIGINATE(dest, hop, hdr, body)                 \
+  do {                                                            \
+    if (ygm::verif::hooks.originate)                              \
+      ygm::verif::hooks.originate(this, dest, hop, hdr, body);    \
+  } while (0)
+#else
+#define YGM_VERIF_EXEC_BEGIN(lid, ar)
+#define YGM_VERIF_EXEC_END(lid, ar)
+#define YGM_VERIF_ORIGINATE(dest, hop, hdr, body)
+#endif
